@@ -135,6 +135,21 @@ static std::string run_generic(const std::string& ad, const std::string& cat, bo
             o.add(0, val_of(x), false);
         return fin(o, orig);
     }
+    if (ad == "ek")
+    {
+        // every proxy is kept while the iterator (still alive at the end) walks on; they are read afterwards:
+        // an element stays paired with the index it was visited at
+        auto e = nitro::lang::enumerate(c);
+        auto it = e.begin();
+        using P = decltype(*it);
+        std::vector<P> kept;
+        std::size_t guard = 0;
+        for (; it != e.end() && guard < 100; ++it, ++guard)
+            kept.push_back(*it);
+        for (auto& p : kept)
+            o.add(p.index(), val_of(p.value()), true);
+        return fin(o, orig);
+    }
     if (ad == "ep")
     {
         // hand-written loop advancing with post-increment
